@@ -52,12 +52,15 @@ Definition fcanon (f : ffmt) (x : Z) : Z := if f_is_nan f x then fqnan f else x.
 
 Definition maxlen : Z := 65535 - 1 - 2.
 
-Fixpoint strip_rev (r : list Z) : list Z :=
-  match r with
-  | 0 :: r' => strip_rev r'
-  | _ => r
+Fixpoint strip_trailing_zeros (t : list Z) : list Z :=
+  match t with
+  | [] => []
+  | x :: t' =>
+      match strip_trailing_zeros t' with
+      | [] => if x =? 0 then [] else [x]
+      | r => x :: r
+      end
   end.
-Definition strip_trailing_zeros (t : list Z) : list Z := rev (strip_rev (rev t)).
 Definition text_norm (t : list Z) : list Z :=
   strip_trailing_zeros (firstn (Z.to_nat maxlen) t).
 Definition enc_text (t : list Z) : list Z :=
